@@ -434,3 +434,87 @@ _c09_prev = harnesses
 
 def harnesses(tier):   # noqa: F811
     return _c09_prev(tier) + [DurationReply()]
+
+
+# --------------------------------------------------------------------------------------------------------------
+# What is *shown* of a duration breakdown: every non-zero part (and always the seconds), in order.
+
+class DurationShown(Harness):
+    name = 'duration_reply.to_spans.shows_nonzero_parts'
+    props = ('C09', 'C04')
+    entry_name = '<DurationReply as TokenFmt>::to_spans'
+    loop_bound = 40
+    describe = ('DurationReply::to_spans on a breakdown whose parts are arbitrary numbers (each zero or not, either sign): the spans list exactly '
+                'the non-zero parts among years..minutes, in order, followed by the seconds')
+    bounds = ['one reply; parts carry their raw value and an exact numeral that is "0" exactly when the value is zero']
+    expect_classes = ['return']
+    _concrete = None
+    PARTS = ['years', 'months', 'weeks', 'days', 'hours', 'minutes', 'seconds']
+
+    def build(self, ex, I):
+        f = ex.prog.src.structs['NumberParts']
+
+        def parts(raw, exact):
+            vals = [none(ex)] * len(f)
+            vals[f.index('raw_value')] = some(ex, raw)
+            vals[f.index('exact_value')] = some(ex, exact)
+            return Struct('NumberParts', vals)
+        fields = {}
+        zero = {}
+        vs = {}
+        for n in self.PARTS:
+            z = ex.choose(2, '%s is zero' % n) == 1
+            v = I.real('v_' + n)
+            ex.assume(v == 0 if z else v != 0)
+            zero[n], vs[n] = z, v
+            fields[n] = parts(number(rational(v), dim({'s': (True, 1)})), '0' if z else 'P:' + n)
+        rawp = parts(number(rational(I.real('total')), dim({'s': (True, 1)})), 'TOTAL')
+        rawp.fields[f.index('quantity')] = some(ex, 'time')
+        df = ex.prog.src.structs['DurationReply']
+        vals = dict(fields, raw=rawp)
+        rep = Struct('DurationReply', [vals[k] for k in df])
+        return [ref(rep)], {'zero': zero, 'rep': rep}
+
+    def entry(self, ex, args, ctx):
+        return ex.call(None, '<output::reply::DurationReply as output::fmt::TokenFmt>::to_spans', list(args))
+
+    def post(self, ex, ctx, outcome):
+        spans = deref_all(outcome[1])
+        shown = []
+        for s in spans.fields:
+            s = deref_all(s)
+            if isinstance(s, Enum) and s.vname == 'Child':
+                ch = deref_all(s.fields[0])
+                fidx = ex.prog.src.structs['NumberParts'].index('exact_value')
+                e = deref_all(ch.fields[fidx]) if isinstance(ch, Struct) and ch.name == 'NumberParts' else None
+                shown.append(deref_all(e.fields[0]) if e is not None and e.variant == 1 else '?')
+        want = ['P:' + n for n in self.PARTS[:-1] if not ctx['zero'][n]] + ['0' if ctx['zero']['seconds'] else 'P:seconds']
+        return [('the parts shown are the non-zero ones, then the seconds (shown %s, non-zero %s)' % (shown, want), shown == want)]
+
+    def native(self, inputs, label):
+        return [{'mode': 'query', 'text': t} for t in ('-90 min', '-(1 day + 5 min + 2.5 s)', '90 min', '-1 year - 3 s', '#2020-01-01# - #2020-01-03 06:00#')]
+
+    def judge(self, inputs, label, obs):
+        """every non-zero field of the structured reply appears in the displayed text"""
+        bad = []
+        for o in obs:
+            if o.get('outcome') == 'panic' or o.get('render_panic'):
+                bad.append('panic %s' % (o.get('panic') or o.get('render_panic')))
+                continue
+            j = o.get('json') or {}
+            if j.get('type') != 'duration':
+                continue
+            disp = o.get('display') or ''
+            for key, word in (('years', 'year'), ('weeks', 'week'), ('days', 'day'), ('hours', 'hour'), ('minutes', 'minute')):
+                p = j.get(key) or {}
+                ev = p.get('exactValue')
+                if ev not in (None, '0') and word not in disp:
+                    bad.append('%r: the reply has %s = %s but the text does not show it' % (disp, key, ev))
+        return bool(bad), '; '.join(bad[:2]) or 'every non-zero part is shown'
+
+
+_c09_prev2 = harnesses
+
+
+def harnesses(tier):   # noqa: F811
+    return _c09_prev2(tier) + [DurationShown()]
